@@ -3,6 +3,7 @@ package c13
 import (
 	stdjson "encoding/json"
 	"fmt"
+	"math/rand"
 	"reflect"
 	"strings"
 
@@ -132,7 +133,7 @@ func ctxTermFor(m *methDesc) any {
 }
 
 func decodesOK(ser string, data []byte, id int64) bool {
-	for _, p := range decodeTable(ser, data) {
+	for _, p := range decodeTable(ser, data, nil) {
 		pr := p.(hx.Pair)
 		if pr.A.(int64) == id {
 			return true
@@ -223,17 +224,21 @@ func nfName(t any) string {
 // one call
 func enumerateExposure(thorough bool, emit func(string, []hx.T, []string)) {
 	groups := []string{"", "grp", "_"}
+	chunk := 2 // methods per case
+	if !thorough {
+		chunk = 4
+	}
 	for zid := range zoo {
 		k := int64(zid % 3)
 		for ni, nft := range nfTerms {
 			for gi, group := range groups {
-				if !thorough && gi != (zid+ni)%3 {
-					continue
+				if !thorough && (gi != (zid+ni)%3 || (zid+ni)%7 >= 4) {
+					continue // quick: 4 of the 7 naming functions per entry, one group option each
 				}
 				reg, r := mkReg(k, zid, group, nft)
 				built := []regd{r}
 				tags := []string{"nf:" + nfName(nft), "group:" + map[string]string{"": "default", "grp": "named", "_": "inner"}[group]}
-				for lo := 0; lo < len(r.ms); lo += 2 {
+				for lo := 0; lo < len(r.ms); lo += chunk {
 					ops := []hx.T{reg}
 					if lo == 0 {
 						real, _ := candidates(r, 0)
@@ -246,7 +251,7 @@ func enumerateExposure(thorough bool, emit func(string, []hx.T, []string)) {
 							ops = append(ops, hx.C("OHas", k, bytesOf(s)))
 						}
 					}
-					for i := lo; i < lo+2 && i < len(r.ms); i++ {
+					for i := lo; i < lo+chunk && i < len(r.ms); i++ {
 						real, all := candidates(r, i)
 						for _, rt := range all {
 							ops = append(ops, hx.C("OHas", k, bytesOf(rt)))
@@ -285,18 +290,18 @@ func enumerateBehaviours(thorough bool, emit func(string, []hx.T, []string)) {
 				ops := []hx.T{reg, hx.C("OBuild", k)}
 				rt := "g." + m.name
 				id := msgTidOf(m)
-				full := thorough || shapeOK(*m)
+				full := thorough || (shapeOK(*m) && (ser == "SJson" || id == 12))
 				for bi, beh := range behs {
 					if !full && bi > 0 {
 						break
 					}
 					v := int64(10*i + bi)
 					ops = append(ops, callSer(k, built, ser, rt, goodPayload(ser, id, v), ctxTermFor(m), true, beh, false))
-					if thorough || bi%2 == 0 {
+					if thorough || bi%3 == 0 {
 						ops = append(ops, callSer(k, built, ser, rt, goodPayload(ser, id, v), ctxTermFor(m), false, beh, false))
 					}
 					if ser == "SJson" {
-						ops = append(ops, callDirect(k, built, rt, hx.C("AVal", id, v), "CNil", true, beh, false))
+						ops = append(ops, callDirect(k, built, rt, hx.C("AVal", id, v, 0), "CNil", true, beh, false))
 					}
 				}
 				if full {
@@ -305,8 +310,8 @@ func enumerateBehaviours(thorough bool, emit func(string, []hx.T, []string)) {
 					ops = append(ops, callSer(k, built, ser, rt, []byte("{"), ctxTermFor(m), true, "BOk", false))
 					if ser == "SJson" {
 						ops = append(ops, callDirect(k, built, rt, "ANil", ctxTermFor(m), true, "BErr", false))
-						ops = append(ops, callDirect(k, built, rt, hx.C("AVal", int64(11), int64(4)), ctxTermFor(m), true, "BOk", false))
-						ops = append(ops, callDirect(k, built, rt, hx.C("AVal", id, int64(8)), hx.C("CTyp", int64(7)), false, "BPanic", false))
+						ops = append(ops, callDirect(k, built, rt, hx.C("AVal", int64(11), int64(4), 0), ctxTermFor(m), true, "BOk", false))
+						ops = append(ops, callDirect(k, built, rt, hx.C("AVal", id, int64(8), 0), hx.C("CTyp", int64(7)), false, "BPanic", false))
 					}
 				}
 				emit("behaviours", ops, []string{"ser:" + ser})
@@ -314,12 +319,13 @@ func enumerateBehaviours(thorough bool, emit func(string, []hx.T, []string)) {
 		}
 	}
 	// F4, in a few small dedicated cases only (each is matched against known_findings.json)
-	n := 2
+	// (quick: only the direct-Call one; CallWithSerialize and Dispatch are in the corpus every run)
+	n, i0 := 2, 1
 	if thorough {
-		n = 6
+		n, i0 = 6, 0
 	}
 	f4 := [][2]any{{0, "g.Note"}, {11, "g.N2"}, {12, "g.P2"}, {4, "g.Ok2"}, {14, "g.R2"}, {1, "g.Note"}}
-	for i := 0; i < n && i < len(f4); i++ {
+	for i := i0; i < n && i < len(f4); i++ {
 		zid, rt := f4[i][0].(int), f4[i][1].(string)
 		reg, r := mkReg(k, zid, "g", "None")
 		built := []regd{r}
@@ -335,7 +341,7 @@ func enumerateBehaviours(thorough bool, emit func(string, []hx.T, []string)) {
 			}
 			call = callSer(k, built, ser, rt, goodPayload(ser, msgTidOf(t), 3), ctxTermFor(t), true, behs[i%len(behs)], true)
 		} else {
-			call = callDirect(k, built, rt, hx.C("AVal", msgTidOf(t), int64(3)), ctxTermFor(t), true, behs[i%len(behs)], true)
+			call = callDirect(k, built, rt, hx.C("AVal", msgTidOf(t), int64(3), 0), ctxTermFor(t), true, behs[i%len(behs)], true)
 		}
 		emit("f4", []hx.T{reg, hx.C("OBuild", k), call}, []string{"F4:notify-with-completion-function"})
 	}
@@ -491,6 +497,12 @@ func genRandom(cfg *hx.Config, idx int) ([]hx.T, []string) {
 			}
 			var data []byte
 			switch q := r.Intn(100); {
+			case q < 30 && ser != "SProto":
+				data = randomObject(r, msgTidOf(t))
+				tags["payload:fieldwise"] = true
+			case q < 30:
+				data = hx.Pick(r, helloParts)
+				tags["payload:proto-partial"] = true
 			case q < 68:
 				data = goodPayload(ser, msgTidOf(t), v)
 				tags["payload:encoded"] = true
@@ -517,11 +529,11 @@ func genRandom(cfg *hx.Config, idx int) ([]hx.T, []string) {
 			v %= 1000 // a directly passed message carries v itself: keep it inside every field type
 			switch q := r.Intn(100); {
 			case q < 60:
-				arg = hx.C("AVal", msgTidOf(t), v)
+				arg = hx.C("AVal", msgTidOf(t), v, 0)
 			case q < 80:
 				tags["arg:nil"] = true
 			default:
-				arg = hx.C("AVal", hx.Pick(r, msgTids), v)
+				arg = hx.C("AVal", hx.Pick(r, msgTids), v, 0)
 				tags["arg:foreign?"] = true
 			}
 			ops = append(ops, callDirect(k, built, rt, arg, ctx, cb, beh, false))
@@ -646,7 +658,7 @@ func enumerateDispatch(thorough bool, emit func(string, []hx.T, []string)) {
 		}
 	}
 	// F4 through Dispatch: a REQUEST addressed to a notify-shaped method (dedicated small cases)
-	n := 1
+	n := 0
 	if thorough {
 		n = 3
 	}
@@ -747,6 +759,9 @@ func genDispatch(cfg *hx.Config) ([]hx.T, []string) {
 		}
 		var body []byte
 		switch p := r.Intn(100); {
+		case p < 25:
+			body = hx.Pick(r, helloParts)
+			tags["payload:proto-partial"] = true
 		case p < 65:
 			body = helloBody(int64(r.Intn(100) - 2))
 			tags["payload:encoded"] = true
@@ -767,4 +782,195 @@ func genDispatch(cfg *hx.Config) ([]hx.T, []string) {
 		ops = append(ops, dispatch(built, ks, rid, rt, body, beh, false))
 	}
 	return ops, sortedTags(tags)
+}
+
+// ---- payload sequences: is a handler given exactly what ITS payload decodes to? ----
+// JSON objects are built field by field: omitted / good / wrong-typed / null.  encoding/json
+// stores the good fields of an object before it reports a wrong-typed one, so a decode target
+// that outlives a rejected payload would show in the next message that omits those fields.
+
+type fieldSpec struct {
+	name      string
+	good, bad []string
+}
+
+var fN = fieldSpec{"n", []string{"3", "-7", "41"}, []string{`"x"`, "true", "[1]", "1.5"}}
+var fS = fieldSpec{"s", []string{`"al"`, `"se"`}, []string{"5", "{}"}}
+var jsonFields = map[int64][]fieldSpec{
+	10: {fN, fS, {"b", []string{"true"}, []string{`"t"`, "1"}}},
+	16: {fN, fS, {"b", []string{"true"}, []string{`"t"`, "1"}}},
+	11: {fN, fS,
+		{"l", []string{"[1,2]", "[9]"}, []string{`"x"`, `[1,"a"]`}},
+		{"m", []string{`{"a":1}`, `{"b":2,"c":3}`}, []string{`{"a":"x"}`, "[1]"}},
+		{"p", []string{`{"n":9}`, `{"s":"in","b":true}`}, []string{`{"n":"z"}`, "5"}}},
+	12: {{"I", []string{"4", "-2"}, []string{`"x"`, "3000000000"}}, {"S", []string{`"bob"`}, []string{"7", "[]"}}},
+}
+
+const (
+	fOmit = iota
+	fGood
+	fBad
+	fNull
+)
+
+// object renders the fields of message type id in the given states (pick varies the sample value)
+func object(id int64, states []int, pick int) []byte {
+	var parts []string
+	for i, f := range jsonFields[id] {
+		switch states[i] {
+		case fGood:
+			parts = append(parts, fmt.Sprintf("%q:%s", f.name, f.good[(pick+i)%len(f.good)]))
+		case fBad:
+			parts = append(parts, fmt.Sprintf("%q:%s", f.name, f.bad[(pick+i)%len(f.bad)]))
+		case fNull:
+			parts = append(parts, fmt.Sprintf("%q:null", f.name))
+		}
+	}
+	return []byte("{" + strings.Join(parts, ",") + "}")
+}
+
+// protobuf bodies of TestHello: partial, unknown fields, wrong wire type, good field then truncation
+var helloParts = [][]byte{
+	{0x08, 0x05},                         // I only
+	{0x12, 0x03, 's', 'e', 'c'},          // S only
+	{0x08, 0x09, 0x12, 0x01, 'z'},        // both
+	{},                                   // neither
+	{0x78, 0x01},                         // unknown field 15
+	{0x0a, 0x01, 0x41},                   // field 1 with the wrong wire type (kept as unknown)
+	{0x08, 0x07, 0x12, 0x05, 'a'},        // I, then a truncated S: error after I was stored
+	{0x12, 0x02, 'o', 'k', 0x08},         // S, then a truncated I
+	{0x08, 0x05, 0x12, 0x02, 0xff, 0xfe}, // I, then invalid UTF-8 in S
+}
+
+// routes that take message type id, over the registrations used by the sequence stream
+type seqRoute struct {
+	route string
+	id    int64
+}
+
+// sequence stream: per message type, a rejected-but-half-decodable payload followed by valid
+// payloads that omit fields - on the same route, on another method, on another entry; JSON and
+// protobuf; through CallWithSerialize and through a dispatching service
+func enumerateSequences(thorough bool, emit func(string, []hx.T, []string)) {
+	k := int64(0)
+	// Z01 (MsgA: Join request, Note notify), Z13 (J1: MsgA; P1/P2: TestHello), Z02 (Join: MsgB; Push/Note: TestHello),
+	// Z06 (Ok: **MsgA)
+	regs := []struct {
+		zid   int
+		group string
+	}{{0, "a"}, {12, "b"}, {1, "c"}, {5, "d"}}
+	var pre []hx.T
+	var built []regd
+	for _, rg := range regs {
+		op, rd := mkReg(k, rg.zid, rg.group, "None")
+		pre = append(pre, op)
+		built = append(built, rd)
+	}
+	pre = append(pre, hx.C("OBuild", k))
+	byType := map[int64][]string{}
+	for _, rd := range built {
+		for i := range rd.ms {
+			if shapeOK(rd.ms[i]) {
+				id := typeIDs[rd.ms[i].ins[1]]
+				byType[id] = append(byType[id], rd.groupName()+"."+rd.ms[i].name)
+			}
+		}
+	}
+	call := func(rt string, ser string, body []byte, bi int) hx.T {
+		t := target(built, rt)
+		return callSer(k, built, ser, rt, body, ctxTermFor(t), true, behs[bi%2], false) // BOk / BErr
+	}
+	for _, id := range []int64{10, 11, 12, 16} {
+		routes := byType[id]
+		fs := jsonFields[id]
+		n := len(fs)
+		// first payloads: exactly one wrong-typed field, the others good or omitted
+		for badAt := 0; badAt < n; badAt++ {
+			for mask := 0; mask < 1<<uint(n); mask++ {
+				if mask&(1<<uint(badAt)) != 0 {
+					continue
+				}
+				if !thorough && n > 3 && mask != (1<<uint(n))-1-(1<<uint(badAt)) && mask != 1<<uint((badAt+1)%n) {
+					continue // quick: all others good / just one other good
+				}
+				first := make([]int, n)
+				for i := range first {
+					if mask&(1<<uint(i)) != 0 {
+						first[i] = fGood
+					}
+				}
+				first[badAt] = fBad
+				ops := append([]hx.T{}, pre...)
+				// second payloads: valid, every subset of fields (quick: each single field, none, all)
+				for sm := 0; sm < 1<<uint(n); sm++ {
+					bits := 0
+					for i := 0; i < n; i++ {
+						if sm&(1<<uint(i)) != 0 {
+							bits++
+						}
+					}
+					if !thorough && bits > 1 && bits < n {
+						continue
+					}
+					second := make([]int, n)
+					for i := range second {
+						if sm&(1<<uint(i)) != 0 {
+							second[i] = fGood
+						}
+					}
+					r1 := routes[(badAt+sm)%len(routes)]
+					r2 := routes[(badAt+sm+mask)%len(routes)]
+					ops = append(ops, call(r1, "SJson", object(id, first, sm), sm))
+					ops = append(ops, call(r2, "SJson", object(id, second, sm+1), sm+1))
+				}
+				// nulls and an empty object after a rejected payload
+				nulls := make([]int, n)
+				for i := range nulls {
+					nulls[i] = fNull
+				}
+				ops = append(ops, call(routes[0], "SJson", object(id, first, 1), 0), call(routes[len(routes)-1], "SJson", object(id, nulls, 0), 0),
+					call(routes[0], "SJson", object(id, first, 2), 0), call(routes[0], "SJson", []byte("{}"), 0))
+				emit("sequence", ops, []string{fmt.Sprintf("sequence:json-type-%d", id)})
+			}
+		}
+	}
+	// protobuf: every ordered pair of bodies, through CallWithSerialize(SProto) and through a service
+	hr := byType[12]
+	ropR, rdR := mkReg(1, remoteZoo[0], "g", "None")
+	builtD := map[int64][]regd{1: {rdR}}
+	for i, b1 := range helloParts {
+		ops := append([]hx.T{}, pre...)
+		ops = append(ops, ropR, hx.C("OBuild", int64(1)))
+		for j, b2 := range helloParts {
+			ops = append(ops, call(hr[(i+j)%len(hr)], "SProto", b1, 0), call(hr[(i+2*j+1)%len(hr)], "SProto", b2, 0))
+			if thorough || (i+j)%2 == 0 {
+				ops = append(ops, dispatch(builtD, []int64{1}, int64(300+j), "g.Join", b1, "BOk", false),
+					dispatch(builtD, []int64{1}, 0, "g.Note", b2, "BOk", false),
+					dispatch(builtD, []int64{1}, int64(400+j), "g.Ret", b2, "BOk", false))
+			}
+		}
+		emit("sequence", ops, []string{"sequence:protobuf"})
+	}
+}
+
+// random field-wise JSON payload for message type id (mostly valid fields, some wrong-typed)
+func randomObject(r *rand.Rand, id int64) []byte {
+	fs, ok := jsonFields[id]
+	if !ok {
+		return []byte(hx.Pick(r, []string{"5", `"x"`, "null", "{}"}))
+	}
+	st := make([]int, len(fs))
+	for i := range st {
+		switch p := r.Intn(10); {
+		case p < 4:
+			st[i] = fOmit
+		case p < 8:
+			st[i] = fGood
+		case p < 9:
+			st[i] = fBad
+		default:
+			st[i] = fNull
+		}
+	}
+	return object(id, st, r.Intn(5))
 }
